@@ -94,6 +94,17 @@ def main(argv=None):
         return finalize(col, mod.META)
 
     if a.child_out:
+        # a generated expression may ask for astronomically much memory ('x' * 10**11, 2 ** 10**9 ...): with a cap on the address
+        # space that is a MemoryError inside the observed call - an outcome like any other, the same for glom and for the reference -
+        # instead of a machine running out of memory
+        try:
+            import resource
+            cap = int(os.environ.get('RV_MEMORY_CAP_GB', '6')) << 30
+            soft, hard = resource.getrlimit(resource.RLIMIT_AS)
+            if hard == resource.RLIM_INFINITY or cap < hard:
+                resource.setrlimit(resource.RLIMIT_AS, (cap, hard))
+        except (ImportError, ValueError, OSError):
+            pass
         col, mod = run_shard(prop, a.tier, a.shard, a.nshards)
         with open(a.child_out, 'w') as f:
             json.dump(col.to_dict(), f, default=repr)
